@@ -6,7 +6,7 @@
 //!                            z:<init>;<T>,<off>;…   synthetic zone, seconds; T strictly increasing
 use crate::common::*;
 use temporal_rs::iso::IsoDateTime;
-use temporal_rs::options::{ArithmeticOverflow, DifferenceSettings, Disambiguation, OffsetDisambiguation, RoundingIncrement};
+use temporal_rs::options::{RelativeTo, ArithmeticOverflow, DifferenceSettings, Disambiguation, OffsetDisambiguation, RoundingIncrement};
 use temporal_rs::partial::{PartialDate, PartialTime, PartialZonedDateTime};
 use temporal_rs::provider::{TimeZoneOffset, TimeZoneProvider, TransitionDirection};
 use temporal_rs::time::EpochNanoseconds;
@@ -308,6 +308,47 @@ pub fn generate_c14(rng: &mut Rng, thorough: bool) -> Vec<String> {
             // time largest unit with rounding
             let (su, inc) = *rng.pick(&[("hour", 1), ("minute", 30), ("second", 1), ("millisecond", 500), ("nanosecond", 1)]);
             v.push(format!("zdt_until {z} {a} {b} hour {su} {inc} {}", rng.pick(&MODES)));
+            // date largest unit with rounding: irregular units bracketed in the zone, time units inside the local day
+            let dl = *rng.pick(&["year", "month", "week", "day", "day"]);
+            let (su, inc): (&str, i128) = match rng.below(8) {
+                0 => ("hour", *rng.pick(&[1i128, 2, 3, 6, 12])),
+                1 => ("minute", *rng.pick(&[1i128, 15, 30])),
+                2 => (*rng.pick(&["second", "millisecond", "microsecond", "nanosecond"]), *rng.pick(&[1i128, 10, 500])),
+                3 | 4 => ("day", *rng.pick(&[1i128, 1, 2, 7])),
+                _ => (*rng.pick(&["year", "month", "week"]), *rng.pick(&[1i128, 1, 2, 5])),
+            };
+            let md = *rng.pick(&MODES);
+            // near the end of a local day the rounded time spills into the next day
+            let b2 = if rng.chance(1, 2) { b } else {
+                (a + rng.range(-40, 40) * DAY + *rng.pick(&[-1i128, 1]) * (DAY - rng.range(0, 3_700_000_000_000))).clamp(-MAXI, MAXI)
+            };
+            v.push(format!("zdt_until {z} {a} {b2} {dl} {su} {inc} {md}"));
+            v.push(format!("zdt_since {z} {a} {b2} {dl} {su} {inc} {md}"));
+            // Duration round / total / compare relative to a ZonedDateTime
+            let mut g = f;
+            if rng.chance(1, 2) {
+                g[4] = sg * *rng.pick(&[0i128, 5, 23, 24, 47]);
+                g[5] = sg * *rng.pick(&[0i128, 29, 30, 59]);
+                g[6] = sg * *rng.pick(&[0i128, 30, 59]);
+            }
+            let gs = g.iter().map(|x| x.to_string()).collect::<Vec<_>>().join(" ");
+            let lo = *rng.pick(&["-", "-", "auto", "year", "month", "week", "day", "hour", "minute"]);
+            let so = if rng.chance(1, 6) { "-" } else { su };
+            let inco = if rng.chance(1, 4) { "-".to_string() } else { inc.to_string() };
+            let mo = if rng.chance(1, 6) { "-" } else { md };
+            v.push(format!("du_round_z {z} {a} {gs} {lo} {so} {inco} {mo}"));
+            v.push(format!("du_zlaw {z} {a} {gs} {}", rng.pick(&["year", "month", "week", "day", "day", "hour", "minute"])));
+            v.push(format!("du_total_z {z} {a} {gs} {}", rng.pick(&["year", "month", "week", "day", "hour", "minute", "second", "nanosecond"])));
+            let mut h = g;
+            match rng.below(4) {
+                0 => { h[3] += sg; h[4] -= sg * 24; }
+                1 => { h[1] += sg; h[3] -= sg * *rng.pick(&[28i128, 30, 31]); }
+                2 => { h[4] += sg * *rng.pick(&[1i128, -1, 24]); }
+                _ => { h = [0i128; 10]; h[3] = sg * rng.range(0, 400); h[4] = sg * rng.range(0, 30); }
+            }
+            if h.iter().any(|x| *x > 0) && h.iter().any(|x| *x < 0) { h = g; h[9] += sg; }
+            let hs = h.iter().map(|x| x.to_string()).collect::<Vec<_>>().join(" ");
+            v.push(format!("du_cmp_z {z} {a} {gs} {hs}"));
             v.push(format!("zdt_sod {z} {a}"));
             v.push(format!("zdt_hid {z} {a}"));
             v.push(format!("zdt_wpt {z} {a} {}", tod(rng.range(0, DAY - 1))));
@@ -424,6 +465,43 @@ pub fn eval(t: &[&str]) -> Option<String> {
                 if t[0] == "zdt_until" { a.until_with_provider(&b, st, &p) } else { a.since_with_provider(&b, st, &p) }
             });
             Some(render(r, |d| fmt_duration(&d)))
+        }
+        "du_round_z" => {
+            // du_round_z zone ns <10 fields> largest smallest increment mode
+            let (tz, p) = zone_of(t[1]);
+            let r = duration_from(&t[3..13]).and_then(|d| {
+                let z = zdt(&tz, i(t[2]))?;
+                d.round_with_provider(super::c10::round_options(t[13], t[14], t[15], t[16])?, Some(RelativeTo::ZonedDateTime(z)), &p)
+            });
+            Some(render(r, |d| fmt_duration(&d)))
+        }
+        "du_zlaw" => {
+            let (tz, p) = zone_of(t[1]);
+            let r = duration_from(&t[3..13]).and_then(|d| {
+                let z = zdt(&tz, i(t[2]))?;
+                let r = d.round_with_provider(super::c10::round_options(t[13], "-", "-", "-")?, Some(RelativeTo::ZonedDateTime(z.clone())), &p)?;
+                let x = z.add_with_provider(&r, None, &p)?;
+                let y = z.add_with_provider(&d, None, &p)?;
+                Ok(if x.epoch_nanoseconds().as_i128() == y.epoch_nanoseconds().as_i128() { 1 } else { 0 })
+            });
+            Some(render(r, |x| x.to_string()))
+        }
+        "du_total_z" => {
+            let (tz, p) = zone_of(t[1]);
+            let r = duration_from(&t[3..13]).and_then(|d| {
+                let z = zdt(&tz, i(t[2]))?;
+                d.total_with_provider(unit(t[13]), Some(RelativeTo::ZonedDateTime(z)), &p)
+            });
+            Some(render(r, |x| fmt_f64(x.as_inner())))
+        }
+        "du_cmp_z" => {
+            let (tz, p) = zone_of(t[1]);
+            let r = duration_from(&t[3..13]).and_then(|a| {
+                let b = duration_from(&t[13..23])?;
+                let z = zdt(&tz, i(t[2]))?;
+                a.compare_with_provider(&b, Some(RelativeTo::ZonedDateTime(z)), &p)
+            });
+            Some(render(r, |o| (o as i8).to_string()))
         }
         "zdt_law" => {
             let (tz, p) = zone_of(t[1]);
